@@ -11,14 +11,14 @@ The file-name matcher (`PathMatch::match`, owned by C31) and `Path::simplifyPath
 theorem holds for all such functions, and the correspondence check runs the model with the answers the real
 functions give.
 
-The glob matcher used for error ids and symbol names is `glob`; `globFixed` selects the current `matchglob`
-(`false`) or the one after /verif/proposed/C23-matchglob.diff (`true`).
+The glob matcher used for error ids and symbol names is `glob`; `globFixed` (= `Glob.fixApplied`) selects the
+`matchglob` before (`false`) or after (`true`) /verif/proposed/C23-matchglob.diff.
 -/
 namespace Cppcheck.Suppress
 open Cppcheck.Wire Cppcheck.Glob
 
-/-- SWITCH: `false` = current lib/utils.cpp matchglob; set to `true` once proposed/C23-matchglob.diff is applied. -/
-def globFixed : Bool := false
+/-- which `matchglob` the suppression code calls: follows the switch `Glob.fixApplied` -/
+def globFixed : Bool := fixApplied
 
 /-- `matchglob(pattern, name)` as called from lib/suppressions.cpp (case sensitive) -/
 def glob (p n : Str) : Bool := dfs globFixed false (cstr p) (cstr n)
